@@ -50,4 +50,55 @@ theorem inverted_normal_flips_signed_distance (P : Plane3 ℝ) (q : V3 ℝ) :
       = -GenRs.Plane3_signed_distance_to_point P q := by
   rw [C19T.Plane3_inverted_normal_eq, C19T.Plane3_signed_distance_eq, C19T.Plane3_signed_distance_eq]
   exact C03.plane_inverted_flips P q
+/-! ### `SvdBasis::rank` (the regenerated counting loop, for any number of singular values) -/
+
+theorem svd_rank_foldl (sv : List ℝ) (tol : ℝ) (acc : Nat) :
+    List.foldl (fun rank s => (let rank := (if tol < s then (let rank := (rank + 1); rank) else rank); rank)) acc sv
+      = acc + (sv.filter (fun s => decide (tol < s))).length := by
+  induction sv generalizing acc with
+  | nil => simp
+  | cons s t ih =>
+    simp only [List.foldl_cons, List.filter_cons]
+    by_cases h : tol < s
+    · simp only [h, if_true, decide_true, List.length_cons]
+      rw [ih]; omega
+    · simp only [h, if_false, decide_false]
+      rw [ih]; simp
+
+/-- the rank is the number of singular values strictly above the tolerance ("the largest value that a singular
+    value can have and still be considered zero": a value equal to it is not counted) -/
+theorem rank_counts_values_above_tol (sv : List ℝ) (tol : ℝ) :
+    GenRs.svd_rank sv tol = (sv.filter (fun s => decide (tol < s))).length := by
+  unfold GenRs.svd_rank
+  simp only []
+  rw [svd_rank_foldl]; simp
+
+/-- never more than the number of singular values -/
+theorem rank_le_count (sv : List ℝ) (tol : ℝ) : GenRs.svd_rank sv tol ≤ sv.length := by
+  rw [rank_counts_values_above_tol]; exact List.length_filter_le _ _
+
+/-- a larger tolerance never gives a larger rank -/
+theorem rank_antitone (sv : List ℝ) {t t' : ℝ} (h : t ≤ t') : GenRs.svd_rank sv t' ≤ GenRs.svd_rank sv t := by
+  rw [rank_counts_values_above_tol, rank_counts_values_above_tol]
+  induction sv with
+  | nil => simp
+  | cons s r ih =>
+    simp only [List.filter_cons]
+    by_cases h1 : t' < s
+    · have h2 : t < s := lt_of_le_of_lt h h1
+      simp only [h1, h2, decide_true, if_true, List.length_cons]; omega
+    · by_cases h2 : t < s
+      · simp only [h1, h2, decide_true, decide_false, if_true, List.length_cons]
+        simp; omega
+      · simp only [h1, h2, decide_false]; simpa using ih
+
+/-- and a tolerance at or above every singular value gives rank 0 -/
+theorem rank_zero_of_all_le (sv : List ℝ) (tol : ℝ) (h : ∀ s ∈ sv, s ≤ tol) : GenRs.svd_rank sv tol = 0 := by
+  rw [rank_counts_values_above_tol]
+  simp only [List.length_eq_zero_iff, List.filter_eq_nil_iff, decide_eq_true_eq, not_lt]
+  exact h
+
+example : GenRs.svd_rank [3, 2, (0 : ℝ)] 2 = 1 := by
+  rw [rank_counts_values_above_tol]; norm_num [List.filter]
+
 end C19U
